@@ -645,7 +645,9 @@ def backend_kinds_are_dispatched(ctx: Ctx, rid: str = "C17.R8") -> None:
     from .c20 import family, SB
     base = ctx.prog.cls(f"{SB}.StorageBackend")
     known = {c.qname for nm in ("LocalStorageBackend", "S3StorageBackend") for c in family(ctx, ctx.prog.cls(f"{SB}.{nm}"))}
-    extra = [c for c in family(ctx, base) if c is not base and c.qname not in known]
+    built = {(dotted(x.func) or "").split(".")[-1] for m_ in ctx.prog.modules.values() for x in ast.walk(m_.tree) if isinstance(x, ast.Call)}
+    # (a mixin deriving StorageBackend that is only ever combined with a real backend is not a kind of its own: it is never built)
+    extra = [c for c in family(ctx, base) if c is not base and c.qname not in known and c.name in built]
     f = ctx.fn("data_operations.DataFileManager._get_arrow_path")
     # names the sanitiser (and what it calls, three levels deep) tests with isinstance
     seen_f = {f.qname}
